@@ -438,7 +438,12 @@ pub fn gen_resize(rng: &mut Rng, cfg: &ResizeCfg, classes: &mut Vec<String>, pt_
         pick_kinds(rng, cfg.allow_sim, cfg.plain_bias)
     };
     let yield_rows = rng.chance(2, 3);
-    let src = mk_img(rng, sw, sh, sk, pt, false, yield_rows);
+    let mut src = mk_img(rng, sw, sh, sk, pt, false, yield_rows);
+    if sw > 0 && sh > 0 && dw > 0 && dh > 0 && rng.chance(1, 10) {
+        // blocks of the size of one destination pixel's footprint
+        src.content = Content::Blocks;
+        src.content_seed = ((sw / dw).max(1).min(0xffff) as u64) | (((sh / dh).max(1).min(0xffff) as u64) << 16);
+    }
     let dst = mk_img(rng, dw, dh, dk, pt, true, yield_rows);
     let (crop, cclass) = if sw == 0 || sh == 0 {
         (Crop::None, "none")
@@ -704,13 +709,13 @@ fn inject_panic(rng: &mut Rng, r: &mut ResizeOp) -> bool {
     if !s && !d {
         return false;
     }
-    // rough number of hand-outs of the op; k uniform over it (k beyond the end = no fire)
-    let est = (r.src.h as u64 * 3 + r.dst.h as u64 * 3).max(4);
-    let k = rng.range(1, est);
-    if s && (!d || rng.chance(1, 2)) {
-        r.src.panic_at = k;
+    // hand-outs are counted per operation and per image; k is uniform over a rough estimate
+    // of that image's hand-outs (k beyond the end = the fault does not fire). The destination
+    // is touched last (second pass, alpha division): a panic there lands late in the call.
+    if s && (!d || rng.chance(1, 3)) {
+        r.src.panic_at = rng.range(1, (r.src.h as u64 * 2).max(3));
     } else {
-        r.dst.panic_at = k;
+        r.dst.panic_at = rng.range(1, (r.dst.h as u64 * 2).max(3));
     }
     true
 }
@@ -828,7 +833,8 @@ pub fn generate(k: &Knobs, seed: u64) -> Scenario {
                 allow_zero: true,
                 allow_type_mismatch: true,
             };
-            let inject = rng.chance(1, 4);
+            let inject = rng.chance(1, 3);
+            let cfg = ResizeCfg { allow_sim: cfg.allow_sim || inject, ..cfg };
             let n_ops = rng.range(2, if k.thorough { 10 } else { 7 }) as usize;
             let mut ops = vec![];
             let mut n_resizers = 1u32;
@@ -858,7 +864,7 @@ pub fn generate(k: &Knobs, seed: u64) -> Scenario {
                         if rng.chance(1, 5) {
                             r.alg = Alg::Super(pick_filt(&mut rng), *rng.pick(&[2u8, 2, 3, 4]));
                         }
-                        if inject && rng.chance(1, 3) && inject_panic(&mut rng, &mut r) {
+                        if inject && rng.chance(1, 2) && inject_panic(&mut rng, &mut r) {
                             classes.push("fault:panic".into());
                         }
                         OpKind::Resize(r)
